@@ -4,7 +4,7 @@
 //!
 //! TLS cases
 //!
-//!     tls be=<ossl|rustls> tr=<direct|astream> lim=<n> buf=<0|1> cap=<n> pr=<pat> pw=<pat> pf=<pat>
+//!     tls be=<ossl|rustls> tr=<direct|astream> lim=<n> buf=<0|1> dr=<n> dw=<n> dfh=<n> df=<n>
 //!     xfer <c2s|s2c> <len> <seed>
 //!     close <c|s>
 //!
@@ -12,9 +12,13 @@
 //!   `buf=1` makes it *buffering*: written bytes sit in the endpoint until `poll_flush`/`poll_close`.
 //! * `tr=astream` : an in-memory duplex implementing compio-io's `AsyncRead`/`AsyncWrite`, wrapped in the
 //!   real `compio_io::compat::AsyncStream` (always buffering: `SyncStream` write buffer).
-//! * `lim`  per-call transfer limit, `cap` capacity of one direction (0 = unbounded),
-//!   `pr`/`pw`/`pf` cyclic Pending patterns of the read / write / flush(+close) calls (`1` = this call returns
-//!   `Pending` after arranging a wake-up, `0` = the call is performed); every pattern contains a `0` (fairness).
+//! * `lim`  per-call transfer limit; `dr`/`dw`/`df` = number of consecutive `Pending`s (each with a wake-up
+//!   arranged) a read / write / flush(+close) call returns before it is performed (the counter restarts when the
+//!   call is performed) - finitely many consecutive Pendings, i.e. a fair schedule whose effect does not depend
+//!   on how many transport calls the third-party engine happens to make; `dfh` is the flush delay in force until
+//!   the endpoint's own handshake future has resolved, `df` afterwards. For `tr=astream` the inner stream's
+//!   `flush()` is never delayed (a delayed inner flush is finding F15 of property C12, `AsyncStream` stale flush
+//!   future), `dw` delays the inner writes of the `AsyncStream` flush future instead.
 //!
 //! WebSocket cases (compio-ws is sealed to `PollFd` transports, so these run on a compio runtime over a
 //! socketpair pair with a harness relay in the middle that plays the schedule)
@@ -54,34 +58,13 @@ mod ws;
 // schedule
 
 #[derive(Clone, Debug)]
-pub struct Pat {
-    bits: Vec<bool>,
-    pos: usize,
-}
-
-impl Pat {
-    fn parse(s: &str) -> Pat {
-        let bits: Vec<bool> = s.bytes().map(|b| b == b'1').collect();
-        assert!(!bits.is_empty() && bits.iter().any(|b| !b), "unfair pattern {s}");
-        Pat { bits, pos: 0 }
-    }
-
-    /// true = this call must return Pending
-    fn tick(&mut self) -> bool {
-        let b = self.bits[self.pos];
-        self.pos = (self.pos + 1) % self.bits.len();
-        b
-    }
-}
-
-#[derive(Clone, Debug)]
 struct Sched {
     lim: usize,
-    cap: usize,
     buffering: bool,
-    pr: Pat,
-    pw: Pat,
-    pf: Pat,
+    dr: u32,
+    dw: u32,
+    dfh: u32,
+    df: u32,
 }
 
 #[derive(Default, Debug)]
@@ -101,7 +84,6 @@ struct Pipe {
     q: VecDeque<u8>,
     closed: bool,
     rwaker: Option<Waker>,
-    wwaker: Option<Waker>,
     moved: u64,
 }
 
@@ -113,6 +95,12 @@ struct Core {
     rx: PipeRef,
     wbuf: Vec<u8>,
     s: Sched,
+    /// consecutive Pendings returned so far by the current read / write / flush call
+    cr: u32,
+    cw: u32,
+    cf: u32,
+    /// set by the endpoint task when its handshake future has resolved (switches `dfh` to `df`)
+    hs_done: Rc<std::cell::Cell<bool>>,
     st: Rc<RefCell<Stats>>,
 }
 
@@ -121,11 +109,25 @@ fn self_wake(cx: &mut Context<'_>) {
 }
 
 impl Core {
-    fn poll_read(&mut self, cx: &mut Context<'_>, buf: &mut [u8]) -> Poll<io::Result<usize>> {
-        self.st.borrow_mut().calls += 1;
-        if self.s.pr.tick() {
-            self.st.borrow_mut().pend_sched += 1;
+    fn delayed(c: &mut u32, d: u32, st: &Rc<RefCell<Stats>>, cx: &mut Context<'_>) -> bool {
+        st.borrow_mut().calls += 1;
+        if *c < d {
+            *c += 1;
+            st.borrow_mut().pend_sched += 1;
             self_wake(cx);
+            true
+        } else {
+            *c = 0;
+            false
+        }
+    }
+
+    fn flush_delay(&self) -> u32 {
+        if self.hs_done.get() { self.s.df } else { self.s.dfh }
+    }
+
+    fn poll_read(&mut self, cx: &mut Context<'_>, buf: &mut [u8]) -> Poll<io::Result<usize>> {
+        if Self::delayed(&mut self.cr, self.s.dr, &self.st, cx) {
             return Poll::Pending;
         }
         let mut rx = self.rx.borrow_mut();
@@ -145,31 +147,22 @@ impl Core {
         for b in buf.iter_mut().take(n) {
             *b = rx.q.pop_front().unwrap();
         }
-        if let Some(w) = rx.wwaker.take() {
-            w.wake();
-        }
         Poll::Ready(Ok(n))
     }
 
-    /// move up to `n` bytes of `data` into the peer's pipe, respecting the capacity
-    fn push(tx: &mut Pipe, cap: usize, data: &[u8]) -> usize {
-        let room = if cap == 0 { usize::MAX } else { cap.saturating_sub(tx.q.len()) };
-        let n = data.len().min(room);
-        tx.q.extend(&data[..n]);
-        tx.moved += n as u64;
-        if n > 0
+    /// move `data` into the peer's pipe
+    fn push(tx: &mut Pipe, data: &[u8]) {
+        tx.q.extend(data);
+        tx.moved += data.len() as u64;
+        if !data.is_empty()
             && let Some(w) = tx.rwaker.take()
         {
             w.wake();
         }
-        n
     }
 
     fn poll_write(&mut self, cx: &mut Context<'_>, buf: &[u8]) -> Poll<io::Result<usize>> {
-        self.st.borrow_mut().calls += 1;
-        if self.s.pw.tick() {
-            self.st.borrow_mut().pend_sched += 1;
-            self_wake(cx);
+        if Self::delayed(&mut self.cw, self.s.dw, &self.st, cx) {
             return Poll::Pending;
         }
         if buf.is_empty() {
@@ -182,57 +175,37 @@ impl Core {
         let n = self.s.lim.min(buf.len());
         if self.s.buffering {
             self.wbuf.extend_from_slice(&buf[..n]);
-            return Poll::Ready(Ok(n));
+        } else {
+            Self::push(&mut tx, &buf[..n]);
         }
-        let m = Self::push(&mut tx, self.s.cap, &buf[..n]);
-        if m == 0 {
-            tx.wwaker = Some(cx.waker().clone());
-            self.st.borrow_mut().pend_real += 1;
-            return Poll::Pending;
-        }
-        Poll::Ready(Ok(m))
+        Poll::Ready(Ok(n))
     }
 
     fn poll_flush(&mut self, cx: &mut Context<'_>) -> Poll<io::Result<()>> {
-        {
-            let mut st = self.st.borrow_mut();
-            st.calls += 1;
-            st.flushes += 1;
-        }
-        if self.s.pf.tick() {
-            self.st.borrow_mut().pend_sched += 1;
-            self_wake(cx);
+        self.st.borrow_mut().flushes += 1;
+        let d = self.flush_delay();
+        if Self::delayed(&mut self.cf, d, &self.st, cx) {
             return Poll::Pending;
         }
-        self.drain(cx)
-    }
-
-    fn drain(&mut self, cx: &mut Context<'_>) -> Poll<io::Result<()>> {
-        if !self.wbuf.is_empty() {
-            let mut tx = self.tx.borrow_mut();
-            let m = Self::push(&mut tx, self.s.cap, &self.wbuf);
-            self.wbuf.drain(..m);
-            if !self.wbuf.is_empty() {
-                tx.wwaker = Some(cx.waker().clone());
-                self.st.borrow_mut().pend_real += 1;
-                return Poll::Pending;
-            }
-        }
+        self.drain();
         Poll::Ready(Ok(()))
     }
 
-    fn poll_close(&mut self, cx: &mut Context<'_>) -> Poll<io::Result<()>> {
-        {
-            let mut st = self.st.borrow_mut();
-            st.calls += 1;
-            st.closes += 1;
+    fn drain(&mut self) {
+        if !self.wbuf.is_empty() {
+            let mut tx = self.tx.borrow_mut();
+            Self::push(&mut tx, &self.wbuf);
+            self.wbuf.clear();
         }
-        if self.s.pf.tick() {
-            self.st.borrow_mut().pend_sched += 1;
-            self_wake(cx);
+    }
+
+    fn poll_close(&mut self, cx: &mut Context<'_>) -> Poll<io::Result<()>> {
+        self.st.borrow_mut().closes += 1;
+        let d = self.flush_delay();
+        if Self::delayed(&mut self.cf, d, &self.st, cx) {
             return Poll::Pending;
         }
-        std::task::ready!(self.drain(cx))?;
+        self.drain();
         let mut tx = self.tx.borrow_mut();
         tx.closed = true;
         if let Some(w) = tx.rwaker.take() {
@@ -308,14 +281,28 @@ impl compio_io::AsyncWrite for CWrite {
 
 type AStream = Pin<Box<AsyncStream<(CRead, CWrite)>>>;
 
-fn mk_cores(s: &Sched) -> (Core, Core, [Rc<RefCell<Stats>>; 2], [PipeRef; 2]) {
+type Done = Rc<std::cell::Cell<bool>>;
+
+fn mk_cores(s: &Sched) -> (Core, Core, [Rc<RefCell<Stats>>; 2], [PipeRef; 2], [Done; 2]) {
     let a2b: PipeRef = Default::default();
     let b2a: PipeRef = Default::default();
     let sa: Rc<RefCell<Stats>> = Default::default();
     let sb: Rc<RefCell<Stats>> = Default::default();
-    let a = Core { tx: a2b.clone(), rx: b2a.clone(), wbuf: vec![], s: s.clone(), st: sa.clone() };
-    let b = Core { tx: b2a.clone(), rx: a2b.clone(), wbuf: vec![], s: s.clone(), st: sb.clone() };
-    (a, b, [sa, sb], [a2b, b2a])
+    let (da, db): (Done, Done) = Default::default();
+    let mk = |tx: &PipeRef, rx: &PipeRef, st: &Rc<RefCell<Stats>>, d: &Done| Core {
+        tx: tx.clone(),
+        rx: rx.clone(),
+        wbuf: vec![],
+        s: s.clone(),
+        cr: 0,
+        cw: 0,
+        cf: 0,
+        hs_done: d.clone(),
+        st: st.clone(),
+    };
+    let a = mk(&a2b, &b2a, &sa, &da);
+    let b = mk(&b2a, &a2b, &sb, &db);
+    (a, b, [sa, sb], [a2b, b2a], [da, db])
 }
 
 // ---------------------------------------------------------------------------------------------
@@ -470,13 +457,15 @@ fn kind(e: &io::Error) -> String {
 }
 
 /// One endpoint's whole life: handshake, then its half of every step.
-async fn endpoint<T, HF>(hs: HF, steps: Vec<Step>, res: Rc<RefCell<Vec<StepRes>>>)
+async fn endpoint<T, HF>(hs: HF, steps: Vec<Step>, res: Rc<RefCell<Vec<StepRes>>>, hs_done: Done)
 where
     T: AsyncRead + AsyncWrite + Unpin,
     HF: Future<Output = io::Result<TlsStream<T>>>,
 {
     res.borrow_mut()[0] = StepRes::Running(0);
-    let mut s = match hs.await {
+    let r = hs.await;
+    hs_done.set(true);
+    let mut s = match r {
         Ok(s) => s,
         Err(e) => {
             res.borrow_mut()[0] = StepRes::Err(kind(&e));
@@ -559,14 +548,18 @@ struct TlsCase {
 
 fn parse_tls(lines: &[String]) -> TlsCase {
     let t: Vec<&str> = lines[0].split_whitespace().collect();
+    let tr = kv(&t, "tr");
+    let astream = tr == "astream";
     let sched = Sched {
         lim: kv(&t, "lim").parse().unwrap(),
-        cap: kv(&t, "cap").parse().unwrap(),
-        buffering: kv(&t, "buf") == "1",
-        pr: Pat::parse(kv(&t, "pr")),
-        pw: Pat::parse(kv(&t, "pw")),
-        pf: Pat::parse(kv(&t, "pf")),
+        // the core under an AsyncStream never buffers and never delays its flush (see the module doc)
+        buffering: !astream && kv(&t, "buf") == "1",
+        dr: kv(&t, "dr").parse().unwrap(),
+        dw: kv(&t, "dw").parse().unwrap(),
+        dfh: if astream { 0 } else { kv(&t, "dfh").parse().unwrap() },
+        df: if astream { 0 } else { kv(&t, "df").parse().unwrap() },
     };
+    assert!(sched.lim >= 1);
     let mut steps = vec![];
     for l in &lines[1..] {
         let w: Vec<&str> = l.split_whitespace().collect();
@@ -594,10 +587,10 @@ fn budget_for(c: &TlsCase) -> u64 {
         .map(|s| if let Step::Xfer(_, n, _) = s.1 { n as u64 } else { 0 })
         .sum::<u64>()
         + 40_000; // handshake + close records, generously
-    let period = (c.sched.pr.bits.len() + c.sched.pw.bits.len() + c.sched.pf.bits.len()) as u64;
-    // every byte may need its own transport call (lim) and every call may be preceded by `period` Pendings;
-    // TLS record overhead < 2x for lim >= 1.  x8 slack.
-    200_000 + 8 * 2 * (total / c.sched.lim as u64 + 1) * (period + 1)
+    let d = (c.sched.dr + c.sched.dw + c.sched.dfh + c.sched.df) as u64;
+    // every byte may need its own transport call (lim) and every call may be preceded by `d` Pendings;
+    // TLS record overhead < 2x.  x8 slack.
+    200_000 + 8 * 2 * (total / c.sched.lim as u64 + 1) * (d + 1)
 }
 
 fn exec_tls(m: &Material, case: &Case, ex: &mut Exec) {
@@ -612,14 +605,14 @@ fn exec_tls(m: &Material, case: &Case, ex: &mut Exec) {
     let rs: Rc<RefCell<Vec<StepRes>>> = Rc::new(RefCell::new(vec![StepRes::NotReached; nsteps + 1]));
     let csteps: Vec<Step> = c.steps.iter().map(|s| s.1.clone()).collect();
     let ssteps: Vec<Step> = c.steps.iter().map(|s| s.2.clone()).collect();
-    let (a, b, stats, pipes) = mk_cores(&c.sched);
+    let (a, b, stats, pipes, dones) = mk_cores(&c.sched);
     let budget = budget_for(&c);
     let rep = match c.tr.as_str() {
         "direct" => {
             let (ta, tb) = (Direct(a), Direct(b));
             let t1: Pin<Box<dyn Future<Output = ()>>> =
-                Box::pin(endpoint(async { conn.connect("localhost", ta).await }, csteps, rc.clone()));
-            let t2: Pin<Box<dyn Future<Output = ()>>> = Box::pin(endpoint(async { acc.accept(tb).await }, ssteps, rs.clone()));
+                Box::pin(endpoint(async { conn.connect("localhost", ta).await }, csteps, rc.clone(), dones[0].clone()));
+            let t2: Pin<Box<dyn Future<Output = ()>>> = Box::pin(endpoint(async { acc.accept(tb).await }, ssteps, rs.clone(), dones[1].clone()));
             run_tasks(vec![t1, t2], budget)
         }
         "astream" => {
@@ -629,8 +622,8 @@ fn exec_tls(m: &Material, case: &Case, ex: &mut Exec) {
             };
             let (ta, tb) = (mk(a), mk(b));
             let t1: Pin<Box<dyn Future<Output = ()>>> =
-                Box::pin(endpoint(async { conn.connect("localhost", ta).await }, csteps, rc.clone()));
-            let t2: Pin<Box<dyn Future<Output = ()>>> = Box::pin(endpoint(async { acc.accept(tb).await }, ssteps, rs.clone()));
+                Box::pin(endpoint(async { conn.connect("localhost", ta).await }, csteps, rc.clone(), dones[0].clone()));
+            let t2: Pin<Box<dyn Future<Output = ()>>> = Box::pin(endpoint(async { acc.accept(tb).await }, ssteps, rs.clone(), dones[1].clone()));
             run_tasks(vec![t1, t2], budget)
         }
         o => panic!("transport {o}"),
@@ -721,18 +714,21 @@ fn exec_tls(m: &Material, case: &Case, ex: &mut Exec) {
 // ---------------------------------------------------------------------------------------------
 // generator
 
-fn gen_pat(r: &mut Rng) -> String {
-    (*r.pick(&["0", "0", "0", "10", "110", "01", "1110", "100"])).to_string()
+fn gen_delay(r: &mut Rng) -> u64 {
+    *r.pick(&[0u64, 0, 0, 1, 1, 2, 3])
 }
 
 fn gen_tls(r: &mut Rng, thorough: bool) -> Vec<String> {
     let be = *r.pick(&["ossl", "rustls"]);
     let tr = *r.pick(&["direct", "direct", "astream"]);
     let lim = *r.pick(&[1usize, 7, 4096, 4096, 1 << 20]);
-    let buf = if tr == "direct" { r.below(2) } else { 0 };
-    let cap = if buf == 1 || tr == "astream" { 0 } else { *r.pick(&[0usize, 0, 64, 5000]) };
-    let mut lines =
-        vec![format!("tls be={be} tr={tr} lim={lim} buf={buf} cap={cap} pr={} pw={} pf={}", gen_pat(r), gen_pat(r), gen_pat(r))];
+    let buf = if tr == "direct" { r.below(2) } else { 1 };
+    let (dfh, df) = if tr == "direct" { (gen_delay(r), gen_delay(r)) } else { (0, 0) };
+    let mut lines = vec![format!(
+        "tls be={be} tr={tr} lim={lim} buf={buf} dr={} dw={} dfh={dfh} df={df}",
+        gen_delay(r),
+        gen_delay(r)
+    )];
     let maxlen: u64 = match (lim, thorough) {
         (1, false) => 2_000,
         (1, true) => 40_000,
